@@ -73,9 +73,16 @@ var c06ExprFaults = []faultKind{
 	{"builtin-fails-sqrt", FnSqrt + "(\"x\")"},
 	{"builtin-fails-append", FnAppend + "(1, 2)"},
 	{"builtin-fails-max", FnMax + "()"},
+	{"builtin-fails-max-empty-array", FnMax + "([])"},
+	{"builtin-fails-min-empty-array", FnMin + "([])"},
+	// diagnostics that embed text of the program: a '%' in it must survive
+	{"percent-missing-property", "([obj0][7 % 1]).zz"},
+	{"percent-delete-key", FnDelete + "({a: 1}, \"z%d%s%!\")"},
+	{"percent-negate-string", "(-\"50%\")"},
+	{"percent-undefined-call", "h1(nx % 3)"},
 }
 
-var c06StmtFaults = []string{"redecl", "redecl-list", "break", "continue", "return", "returnval"}
+var c06StmtFaults = []string{"redecl", "redecl-list", "redecl-nil", "redecl-uninit", "redecl-noreturn", "break", "continue", "return", "returnval"}
 
 var c06StmtCtx = []string{"expr", "print", "var", "assign", "varlist", "return", "if-cond", "while-cond", "for-init", "for-cond", "for-inc", "elseif-cond"}
 
@@ -318,6 +325,15 @@ func (e *skEmit) emitFault(n *skNode, ind int) {
 			n.Line = e.add(ind, fmt.Sprintf("%s r%d = 2;", KwVar, t))
 		case "redecl-list":
 			n.Line = e.add(ind, fmt.Sprintf("%s r%d = 1, r%d = 2;", KwVar, t, t))
+		case "redecl-nil":
+			e.add(ind, fmt.Sprintf("%s r%d = nil;", KwVar, t))
+			n.Line = e.add(ind, fmt.Sprintf("%s r%d = 2;", KwVar, t))
+		case "redecl-uninit":
+			e.add(ind, fmt.Sprintf("%s r%d;", KwVar, t))
+			n.Line = e.add(ind, fmt.Sprintf("%s r%d;", KwVar, t))
+		case "redecl-noreturn":
+			e.add(ind, fmt.Sprintf("%s r%d = h2(1, 2);", KwVar, t))
+			n.Line = e.add(ind, fmt.Sprintf("%s r%d = 3;", KwVar, t))
 		case "break":
 			n.Line = e.add(ind, KwBreak+";")
 		case "continue":
@@ -807,7 +823,7 @@ func c06Systematic(tier string) []*Case {
 	// statement-kind faults x enclosing constructs where they are faults
 	for _, st := range c06StmtFaults {
 		for _, enc := range encl {
-			stray := st != "redecl" && st != "redecl-list"
+			stray := !strings.HasPrefix(st, "redecl")
 			if stray && (enc == "while" || enc == "for" || enc == "while-true" || enc == "for-nocond" || strings.HasPrefix(enc, "func")) {
 				continue
 			}
@@ -818,6 +834,14 @@ func c06Systematic(tier string) []*Case {
 			out = append(out, c06Case(plan, zeroSrc{}, 0, "table:stmt"))
 		}
 	}
+	// every confirmed built-in misuse, at top level and inside a function called from a loop
+	for i, bm := range c06BuiltinMisuse {
+		expr := bm.fn + "(" + bm.args + ")"
+		for _, chain := range [][]string{nil, {"for", "func"}} {
+			plan := c06Plan{chain: chain, fault: skFault{Kind: "builtin-misuse", Expr: expr, Ctx: []string{"print", "expr", "var"}[i%3], Probe: c06Probes[i%3]}}
+			out = append(out, c06Case(plan, zeroSrc{}, 0, "table:builtin-misuse"))
+		}
+	}
 	// programs that perform no invalid operation: no diagnostic, status 0
 	cleanProgs := map[string]string{
 		"empty": "", "newline": "\n", "blank-lines": "\n\n   \n", "line-comment": "// nothing here\n", "block-comment": "/* nothing\n here */\n",
@@ -826,10 +850,19 @@ func c06Systematic(tier string) []*Case {
 		"short-circuit": fmt.Sprintf("%s %s %s nx;\n%s %s %s nx;\n", KwPrint, KwTrue, KwOr, KwPrint, KwFalse, KwAnd),
 		"zero-trip-loops": fmt.Sprintf("%s (%s) { %s nx; }\n%s (%s i = 0; i < 0; i = i + 1) { nx; }\n%s \"ok\";\n", KwWhile, KwFalse, KwPrint, KwFor, KwVar, KwPrint),
 	}
+	cleanProgs["many-returning-calls"] = fmt.Sprintf("%s inc(n) { %s n + 1; }\n%s c = 0;\n%s (%s i = 0; i < 2500; i = i + 1) { c = inc(c); }\n%s c;\n", KwFun, KwReturn, KwVar, KwFor, KwVar, KwPrint)
+	cleanProgs["fib-16"] = fmt.Sprintf("%s fib(n) { %s (n < 2) { %s n; } %s fib(n - 1) + fib(n - 2); }\n%s fib(16);\n", KwFun, KwIf, KwReturn, KwReturn, KwPrint)
+	cleanProgs["deep-recursion-600"] = fmt.Sprintf("%s down(n) { %s (n > 0) { %s down(n - 1); } %s 0; }\n%s down(600);\n", KwFun, KwIf, KwReturn, KwReturn, KwPrint)
+	cleanProgs["many-void-calls"] = fmt.Sprintf("%s noop() { }\n%s (%s i = 0; i < 2500; i = i + 1) { noop(); }\n%s \"ok\";\n", KwFun, KwFor, KwVar, KwPrint)
+	cleanProgs["many-objects"] = fmt.Sprintf("%s (%s i = 0; i < 1500; i = i + 1) { %s o = {a: i, b: [i]}; o.a = o.a + 1; }\n%s \"ok\";\n", KwFor, KwVar, KwVar, KwPrint)
+	cleanProgs["long-while"] = fmt.Sprintf("%s n = 0;\n%s (n < 5000) { n = n + 1; }\n%s n;\n", KwVar, KwWhile, KwPrint)
 	for _, name := range sortedStrKeys(cleanProgs) {
 		prog := cleanProgs[name]
-		want := map[string]string{"dead-fault": "ok\n", "short-circuit": "true\nfalse\n", "zero-trip-loops": "ok\n"}[name]
-		cs := &Case{Prop: "C06", Kind: "clean", Sig: "clean:" + name, Program: prog, FaultKind: "none", Runs: []Run{{Role: "clean", Cfg: scriptCfg(prog, "")}}}
+		want := map[string]string{"dead-fault": "ok\n", "short-circuit": "true\nfalse\n", "zero-trip-loops": "ok\n", "many-returning-calls": "2500\n", "fib-16": "987\n",
+			"deep-recursion-600": "0\n", "many-void-calls": "ok\n", "many-objects": "ok\n", "long-while": "5000\n"}[name]
+		ccfg := scriptCfg(prog, "")
+		ccfg.Budget = 5000000
+		cs := &Case{Prop: "C06", Kind: "clean", Sig: "clean:" + name, Program: prog, FaultKind: "none", Runs: []Run{{Role: "clean", Cfg: ccfg}}}
 		cs.ExpectStdout = ptrS(want)
 		cs.Aux = &Aux{C06: &C06Expect{}}
 		out = append(out, cs)
